@@ -396,6 +396,12 @@ func c19StackBody(r *Run) {
 			return
 		}
 	}
+	// afterwards the message's context is its owner's again: when the owner cancels it, the message sees that
+	r.Fault("context-cancel")
+	cancelBase()
+	if realMsg.Context().Err() == nil {
+		r.Fail("C19.R5", "after passing through the stack the message no longer follows its owner's context (cancelling it has no effect on the message)", "stack %s", strings.Join(names, " > "))
+	}
 }
 
 func c19DelayBody(r *Run) {
@@ -457,6 +463,11 @@ func c19ThrottleBody(r *Run) {
 	per := 1 + t.Int(5)
 	r.Describe("Throttle(%d per %v => interval %v), %d concurrent callers x %d messages", count, dur, interval, nG, per)
 	th := middleware.NewThrottle(count, dur)
+	// nobody calls for a while (also right after the middleware was built): unused time must not turn into a burst later
+	if idle := t.Int(8); idle > 0 {
+		time.Sleep(time.Duration(idle) * 2 * interval)
+	}
+	idleMid := t.Int(8)
 	var starts []time.Duration
 	gaveUp := 0
 	h := th.Middleware(func(m *message.Message) ([]*message.Message, error) {
@@ -477,6 +488,9 @@ func c19ThrottleBody(r *Run) {
 			defer wg.Done()
 			time.Sleep(time.Duration(g) * interval / 3)
 			for i := 0; i < per; i++ {
+				if i == per/2 && idleMid > 0 {
+					time.Sleep(time.Duration(idleMid) * 2 * interval) // every caller pauses half-way
+				}
 				m := message.NewMessage(fmt.Sprintf("g%d-%d", g, i), nil)
 				switch ctxMode {
 				case 2:
@@ -721,7 +735,7 @@ func init() {
 	stubs := []string{"scripted bare handler", "reference implementations of the documented effects (the oracle)"}
 	setup := func(r *Run) simrt.Config {
 		c := BaseConfig()
-		c.Horizon = time.Second
+		c.Horizon = time.Minute
 		return c
 	}
 	Register(&Scenario{Prop: "C19", Name: "stack-vs-reference", Setup: setup, Body: c19StackBody, Real: real, Stubs: stubs, Weight: 6})
